@@ -2,7 +2,11 @@
 
 Correspondence of M-Reload (lean/ExaModel/Model/Reload.lean, driver `drv_reload`) with the real
 `Reactor.reload()` / `Configuration.reload()` on configuration FILES, real peers running the real
-`Peer._run()` (harness/reloadrig.py), plus the property's own oracle on the implementation:
+`Peer._run()` (harness/reloadrig.py), plus the property's own oracle on the implementation.
+A scenario is a HISTORY: an initial file, then 1–4 reloads (successful and failing ones mixed; a
+neighbor removed and added again under the same name; the original or a corrected file after a
+refused one) with API commands, session losses and transmission modes in between; the oracle is
+evaluated after every reload of the history:
 
   success : after the reload and a drain (sessions that were down are established afterwards),
             every peer's table — rebuilt from the bytes it was sent — is the new configuration's
@@ -64,61 +68,56 @@ def by_name(cfg: dict) -> dict[int, dict]:
     return {nb['name']: nb for nb in cfg['nbrs']}
 
 
-def expected_before(sc: dict) -> dict[int, dict[int, tuple[int, int]]]:
-    out = {}
-    for nb in sc['old']['nbrs']:
-        t = dict(live_routes(nb))
-        for op in sc['api']:
-            if op[0] != nb['name']:
-                continue
-            _, action, n, a, h = op
-            if ribrig.NLRI_FAM[n] not in nb['fams']:
-                continue
-            if action == 'announce':
-                t[n] = (a, h)
-            else:
-                t.pop(n, None)
-        out[nb['name']] = t
-    return out
-
-
-def expected_after(sc: dict) -> dict[int, dict[int, set]]:
-    """name -> prefix -> set of acceptable values (None = not held) after a SUCCESSFUL reload."""
-    old = by_name(sc['old'])
-    before = expected_before(sc)
-    out: dict[int, dict[int, set]] = {}
-    for nb in sc['new']['nbrs']:
-        a = nb['name']
-        newt = live_routes(nb)
-        allowed: dict[int, set] = {}
-        if a not in old:
-            for n in ribrig.NLRIS:
-                allowed[n] = {newt.get(n)}
-            for n in parked(nb):
-                allowed[n] = {None, next((r[1], r[2]) for r in nb['routes'] if r[0] == n)}
-            out[a] = allowed
+def apply_api(table: dict[int, tuple[int, int]], nb: dict, ops: list) -> dict[int, tuple[int, int]]:
+    """The intended table of neighbor `nb` after API commands (those of its name, of a family it has)."""
+    t = dict(table)
+    for op in ops:
+        if op[0] != nb['name']:
             continue
-        oldt = live_routes(old[a])
-        touched = {op[2] for op in sc['api'] if op[0] == a}
-        bt = before[a]
+        _, action, n, a, h = op
+        if ribrig.NLRI_FAM[n] not in nb['fams']:
+            continue
+        if action == 'announce':
+            t[n] = (a, h)
+        else:
+            t.pop(n, None)
+    return t
+
+
+def allowed_after(cur_nb: dict | None, new_nb: dict, bt: dict[int, tuple[int, int]], owned: set[int]) -> dict[int, set]:
+    """prefix -> acceptable values (None = not held) for the peer of `new_nb` after a SUCCESSFUL reload.
+
+    `cur_nb` is the section that was running under that name (None: the name is new — whatever an earlier
+    neighbor of that name had is gone with it), `bt` what the peer was due before the reload (configured
+    routes and API routes, API commands of this step applied), `owned` the prefixes whose value in `bt`
+    comes from the API.  Where the configuration and the API both claim a prefix either owner is accepted."""
+    newt = live_routes(new_nb)
+    allowed: dict[int, set] = {}
+    if cur_nb is None:
         for n in ribrig.NLRIS:
-            if n in newt:
-                s = {newt[n]}
-                if n in touched and n in bt:
-                    s.add(bt[n])  # the API re-announced a configured prefix: either owner
-            elif n in oldt or n in parked(old[a]):
-                s = {None}
-                if n in touched and n in bt:
-                    s.add(bt[n])
-            elif ribrig.NLRI_FAM[n] not in nb['fams']:
-                s = {None}
-            else:
-                s = {bt.get(n)}
-            if n in parked(nb) or n in parked(old[a]):
-                s |= {None} | {(r[1], r[2]) for r in nb['routes'] + old[a]['routes'] if r[0] == n}
-            allowed[n] = s
-        out[a] = allowed
-    return out
+            allowed[n] = {newt.get(n)}
+        for n in parked(new_nb):
+            allowed[n] = {None, next((r[1], r[2]) for r in new_nb['routes'] if r[0] == n)}
+        return allowed
+    oldt = live_routes(cur_nb)
+    for n in ribrig.NLRIS:
+        if n in newt:
+            s = {newt[n]}
+            if n in owned and n in bt:
+                s.add(bt[n])
+        elif n in oldt or n in parked(cur_nb):
+            s = {None}
+            if n in owned and n in bt:
+                s.add(bt[n])
+        elif ribrig.NLRI_FAM[n] not in new_nb['fams']:
+            s = {None}
+        else:
+            s = {bt.get(n)}
+        if n in parked(new_nb) or n in parked(cur_nb):
+            # parked by a `withdraw` watchdog: outside the property's wording (see ASSUMPTIONS) — not judged
+            s |= {None, bt.get(n)} | {(r[1], r[2]) for r in new_nb['routes'] + cur_nb['routes'] if r[0] == n}
+        allowed[n] = s
+    return allowed
 
 
 def delta_kinds(sc: dict) -> set[str]:
@@ -211,7 +210,7 @@ def fault_text(sc: dict) -> tuple[str | None, str, dict]:
     if kind == 'validation':
         # a neighbor names a process that is not defined: validate() complains, `_reload` returns True anyway
         cfg = copy.deepcopy(new)
-        cfg['nbrs'][f['nbr']]['proc'] = 'ghost'
+        cfg['nbrs'][f['nbr']]['proc'] = 'svc ghost'
         return '\n'.join(R.config_lines(cfg)) + '\n', 'ok', new
     raise ValueError(f)
 
@@ -337,15 +336,15 @@ class Model:
             for a in names.split(','):
                 ribs[int(a)] = self.ask(f'reload rib {a}')
         peers = self.ask('reload peers')
-        return {'nbrs': self.ask('reload nbrs'), 'procs': self.ask('reload procs'), 'peers': sorted(peers.split(',')) if peers != '-' else [], 'ribs': ribs}
+        return {'nbrs': self.ask('reload nbrs'), 'procs': self.ask('reload procs'), 'peers': sorted(peers.split(',')) if peers != '-' else [], 'ribs': ribs, 'pending': self.ask('reload pending')}
 
 
 def impl_state(rig: R.ReloadRig) -> dict:
-    return {'nbrs': rig.nbrs(), 'procs': rig.procs(), 'peers': rig.peers(), 'ribs': rig.ribs()}
+    return {'nbrs': rig.nbrs(), 'procs': rig.procs(), 'peers': rig.peers(), 'ribs': rig.ribs(), 'pending': rig.pending()}
 
 
 def diff_state(label: str, impl: dict, model: dict, skip_procs: bool = False) -> str | None:
-    for k in ('nbrs', 'procs', 'peers', 'ribs'):
+    for k in ('nbrs', 'procs', 'peers', 'ribs', 'pending'):
         if k == 'procs' and skip_procs:
             continue
         if impl[k] != model[k]:
@@ -385,11 +384,63 @@ def follow_up(rig: R.ReloadRig, model: Model | None) -> None:
             model.drain(a)
 
 
+def normalize(sc: dict) -> dict:
+    """Scenario format: {'old', 'up', 'steps': [{'flap', 'api', 'mode', 'new', 'fault'?}, …]}.
+    The one-reload form of the first corpus files ({'old','new','up','api','mode','fault','again'}) is
+    read as one step, plus a reload of the valid new file when 'again' is set."""
+    if 'steps' in sc:
+        return sc
+    step = {'flap': [], 'api': sc.get('api', []), 'mode': sc.get('mode', 'settled'), 'new': sc['new']}
+    if sc.get('fault'):
+        step['fault'] = sc['fault']
+    out = {'old': sc['old'], 'up': sc['up'], 'steps': [step]}
+    if sc.get('again') and sc.get('fault'):
+        out['steps'].append({'flap': [], 'api': [], 'mode': 'settled', 'new': sc['new']})
+    if sc.get('no_sessions'):
+        out['no_sessions'] = True
+    return out
+
+
+def inject(rig: R.ReloadRig, model: Model | None, running: dict, up_now: list[int], mode: str, op: list, res: dict) -> None:
+    """One API command: through the real dispatcher and scheduler (settled), or through the entry point the
+    API callback ends in without running the event loop (burst / inflight / midloop)."""
+    a, action, n, at, h = op
+    names = by_name(running)
+    if a not in names or rig.peer(a) is None:
+        return
+    if mode == 'settled':
+        ans = rig.api_route(a, action, n, at, h)
+        if ans != ['done']:
+            res['notes'].append(f'api answered {ans} to {op}')
+        rig.settle()
+    else:
+        route = rig.reactor.api.api_route(ribrig.route_text(n, at, h), action)[0]
+        key = rig.real_name(a)
+        if action == 'announce':
+            rig.cfg.announce_route([key], route)
+        else:
+            rig.cfg.withdraw_route([key], route)
+    if model and ribrig.NLRI_FAM[n] in names[a]['fams']:
+        if action == 'announce':
+            model.ask(f'reload api {a} add {n}:{ribrig.NLRI_FAM[n]}:{at}:{h}:{ribrig.grp_of(n, at, h)} 0')
+        else:
+            model.ask(f'reload api {a} del {n} {ribrig.NLRI_FAM[n]}')
+        if mode == 'settled' and a in up_now:
+            model.drain(a)
+
+
 def run_scenario(sc: dict, drv: common.Driver | None) -> dict:
-    """Execute on the real code (and on the model when a driver is given)."""
-    res: dict = {'disagreement': None, 'failures': [], 'error': None, 'verdict': None, 'notes': []}
+    """Execute a history of reloads on the real code (and on the model when a driver is given); the
+    property's oracle is evaluated after EVERY reload of the history."""
+    sc = normalize(sc)
+    res: dict = {'disagreement': None, 'failures': [], 'error': None, 'verdict': None, 'verdicts': [], 'notes': []}
     rig = R.ReloadRig()
     model = Model(drv) if drv is not None else None
+
+    def check(label: str) -> None:
+        if model and not res['disagreement']:
+            res['disagreement'] = diff_state(label, impl_state(rig), model.state())
+
     try:
         # ---- initial load --------------------------------------------------------------------
         rig.write_file('\n'.join(R.config_lines(sc['old'])) + '\n')
@@ -402,166 +453,159 @@ def run_scenario(sc: dict, drv: common.Driver | None) -> dict:
             rig.establish(a)
             if model:
                 model.est(a)
-        mode = sc.get('mode', 'settled')
         if sc['up']:
             rig.settle()
             if model:
                 for a in sc['up']:
                     model.drain(a)
-        if model and not res['disagreement']:
-            res['disagreement'] = diff_state('after load', impl_state(rig), model.state())
-        # ---- API activity --------------------------------------------------------------------
-        names = by_name(sc['old'])
-        for op in sc['api']:
-            a, action, n, at, h = op
-            if mode == 'settled':
-                ans = rig.api_route(a, action, n, at, h)
-                if ans != ['done']:
-                    res['notes'].append(f'api answered {ans} to {op}')
-                rig.settle()
-            else:
-                # burst: the same entry point the API callback ends in, without running the event loop
-                route = rig.reactor.api.api_route(ribrig.route_text(n, at, h), action)[0]
-                key = rig.real_name(a)
-                if action == 'announce':
-                    rig.cfg.announce_route([key], route)
-                else:
-                    rig.cfg.withdraw_route([key], route)
-            if model and ribrig.NLRI_FAM[n] in names[a]['fams']:
-                if action == 'announce':
-                    model.ask(f'reload api {a} add {n}:{ribrig.NLRI_FAM[n]}:{at}:{h}:{ribrig.grp_of(n, at, h)} 0')
-                else:
-                    model.ask(f'reload api {a} del {n} {ribrig.NLRI_FAM[n]}')
-                if mode == 'settled' and a in sc['up']:
-                    model.drain(a)
-        if mode == 'inflight' and sc['up']:
-            # let every established peer take its snapshot (first `next()` of updates()): stop as soon as
-            # no queue is pending, i.e. right after the first message of the last generator created
-            live = [rig.current(a) for a in sc['up']]
+        check('after load')
+        running = sc['old']  # the configuration in force
+        # what every peer is due (configured + API routes), and which prefixes the API owns
+        due: dict[int, dict] = {nb['name']: dict(live_routes(nb)) for nb in running['nbrs']}
+        owned: dict[int, set] = {nb['name']: set() for nb in running['nbrs']}
+        adj_off = any(not nb.get('adj', True) for nb in running['nbrs'])
+        failed_before = False
+        for i, step in enumerate(sc['steps']):
+            where = f'reload {i + 1}'
+            mode = step.get('mode', 'settled')
+            adj_off = adj_off or any(not nb.get('adj', True) for nb in step['new']['nbrs'])
+            # ---- sessions lost before this reload ------------------------------------------------
+            for a in step.get('flap', []):
+                if rig.lose(a) and model:
+                    model.ask(f'reload lost {a}')
+            up_now = [a for a in NAMES if rig.peer(a) is not None and rig.peer(a).established()]
+            # ---- API activity --------------------------------------------------------------------
+            for op in step.get('api', []):
+                inject(rig, model, running, up_now, mode, op, res)
+            if mode == 'inflight' and up_now:
+                # let every established peer take its snapshot (first `next()` of updates()): stop as soon
+                # as no queue is pending, i.e. right after the first message of the last generator created
+                live = [rig.current(a) for a in up_now]
 
-            async def until_started() -> None:
-                import asyncio
+                async def until_started(live: list = live) -> None:
+                    import asyncio
 
-                for _ in range(200000):
-                    if not any(s.peer.neighbor.rib.outgoing.pending() for s in live if s and not s.task.done()):
-                        return
-                    await asyncio.sleep(0)
+                    for _ in range(200000):
+                        if not any(s.peer.neighbor.rib.outgoing.pending() for s in live if s and not s.task.done()):
+                            return
+                        await asyncio.sleep(0)
 
-            rig.loop.run_until_complete(until_started())
-            if model:
-                for a in sc['up']:
-                    model.ask(f'reload start {a}')
-        midloop = mode == 'midloop' and len(sc['up']) == 1 and rig.park_in_read(sc['up'][0])
-        if model and not res['disagreement']:
-            res['disagreement'] = diff_state('before reload', impl_state(rig), model.state())
-        before = rig.snapshot()
-        exp_before = expected_before(sc)
-        # ---- the reload ----------------------------------------------------------------------
-        text, code, told = fault_text(sc)
-        rig.write_file(text)
-        with Patch(sc.get('fault')):
-            verdict = rig.reload()
-        if midloop:
-            rig.release(sc['up'][0])
-        res['verdict'] = verdict
-        after = rig.snapshot()
-        if model:
-            mv = model.ask(R.model_load(told, code))
-            if not res['disagreement'] and (mv == 'ok') != verdict:
-                res['disagreement'] = f'verdict: impl {verdict} model {mv}'
-            if not res['disagreement']:
-                res['disagreement'] = diff_state('after reload', impl_state(rig), model.state(), skip_procs=False)
-        if midloop and model:
-            # the rest of the interrupted iteration runs before the loop top sees the new definition
-            a = sc['up'][0]
-            p = model.peers().get(a)
-            if p and p[2]:
-                evs = parse_model_events(model.ask(f'reload sendupd {a}'))
-                if model.sessions.get(a):
-                    model.sessions[a][-1].extend(evs)
-        if not sc.get('no_sessions'):
-            follow_up(rig, model)
-        if model and not res['disagreement']:
-            res['disagreement'] = diff_state('after follow-up', impl_state(rig), model.state(), skip_procs=False)
-        # ---- oracle --------------------------------------------------------------------------
-        fclass = fault_class(sc)
-        adj_off = any(not nb.get('adj', True) for nb in sc['old']['nbrs'] + sc['new']['nbrs'])
-        if verdict and not is_fault(sc) and not adj_off:
-            want = expected_after(sc)
-            for a, allowed in want.items():
-                t = rig.table(a)
-                bad = {n: t.get(n) for n in ribrig.NLRIS if t.get(n) not in allowed[n]}
-                if bad:
-                    acc = {n: sorted(map(str, allowed[n])) for n in bad}
-                    res['failures'].append((['successful-reload', 'wrong-table'], f'neighbor {a}: after the reload and a drain the peer holds {bad} where {acc} is acceptable'))
-            gone = set(by_name(sc['old'])) - set(by_name(sc['new']))
-            for a in gone:
-                if rig.peer(a) is not None:
-                    res['failures'].append((['successful-reload', 'removed-neighbor-kept'], f'neighbor {a} was removed from the configuration and still has a peer'))
-        elif verdict and is_fault(sc):
-            res['failures'].append((['broken-file-accepted', fclass], f'the reload of a broken file ({sc["fault"]}) reported success'))
-        elif not verdict and not is_fault(sc):
-            res['failures'].append((['valid-file-refused'], f'the reload of a valid file failed: {str(rig.cfg.error)[:200]}'))
-        elif not verdict:
-            if [k_ for k_, _ in after['neighbors']] != [k_ for k_, _ in before['neighbors']] or after['neighbors'] != before['neighbors']:
-                eff = 'neighbors-wiped' if not after['neighbors'] else 'neighbors-replaced'
-                res['failures'].append((['failed-reload', fclass, eff], f'configuration.neighbors after the failed reload: {after["nbrs"]} (before: {before["nbrs"]}; same objects: {after["neighbors"] == before["neighbors"]})'))
-            if after['procs'] != before['procs']:
-                res['failures'].append((['failed-reload', fclass, 'processes-changed'], f'configuration.processes after the failed reload: {after["procs"]} (before: {before["procs"]})'))
-            leaked = after['ribs'] != before['ribs']
-            what = f'RIBs after the failed reload {after["ribs"]} (before: {before["ribs"]})' if leaked else ''
-            if not adj_off:
-                for a, want_t in exp_before.items():
-                    if rig.peer(a) is None:
-                        continue
-                    t = rig.table(a)
-                    if t != want_t:
-                        leaked = True
-                        what += f'; neighbor {a}: after the failed reload the peer holds {t}, before it was due {want_t}'
-            if leaked:
-                res['failures'].append((['failed-reload', fclass, 'routes-leaked'], what.lstrip('; ')))
-        # ---- API still works, a corrected file can be loaded -------------------------------------
-        if not verdict and is_fault(sc):
-            a0 = sc['old']['nbrs'][0]['name']
-            probe = 5 if 1 in names[a0]['fams'] else 8
-            ans = rig.api_route(a0, 'announce', probe, 3, 2)
-            rig.settle()
-            peer0 = rig.peer(a0)
-            cached = [] if peer0 is None else [rig.rid(r) for r in peer0.neighbor.rib.outgoing.cached_routes()]
-            probe_ok = ans == ['done'] and (probe, ribrig.NLRI_FAM[probe], 3, 2) in cached
-            if not probe_ok and not adj_off:
-                res['failures'].append((['failed-reload', fclass, 'api-broken'], f'after the failed reload `announce route` answered {ans} and the route is {"not " if (probe, ribrig.NLRI_FAM[probe], 3, 2) not in cached else ""}in the Adj-RIB-Out of neighbor {a0}'))
-            if model:
-                model.ask(f'reload api {a0} add {probe}:{ribrig.NLRI_FAM[probe]}:3:2:{ribrig.grp_of(probe, 3, 2)} 0')
-                p = model.peers().get(a0)
-                if p and p[2]:
-                    model.drain(a0)
-                if not res['disagreement']:
-                    res['disagreement'] = diff_state('after api probe', impl_state(rig), model.state(), skip_procs=False)
-            if sc.get('again'):
-                rig.write_file('\n'.join(R.config_lines(sc['new'])) + '\n')
-                again = rig.reload()
+                rig.loop.run_until_complete(until_started())
                 if model:
-                    mv = model.ask(R.model_load(sc['new'], 'ok'))
-                    if not res['disagreement'] and (mv == 'ok') != again:
-                        res['disagreement'] = f'second reload verdict: impl {again} model {mv}'
-                if not sc.get('no_sessions'):
-                    follow_up(rig, model)
-                if model and not res['disagreement']:
-                    res['disagreement'] = diff_state('after second reload', impl_state(rig), model.state(), skip_procs=False)
-                if not again:
-                    res['failures'].append((['failed-reload', fclass, 'next-reload-refused'], f'after the failed reload the corrected file is refused: {str(rig.cfg.error).strip()[:160]}'))
-                elif not adj_off:
-                    sc2 = copy.deepcopy(sc)
-                    sc2['api'] = sc['api'] + ([[a0, 'announce', probe, 3, 2]] if probe_ok else [])
-                    want = expected_after(sc2)
-                    for a, allowed in want.items():
+                    for a in up_now:
+                        model.ask(f'reload start {a}')
+            midloop = mode == 'midloop' and len(up_now) == 1 and rig.park_in_read(up_now[0])
+            check(f'before {where}')
+            before = rig.snapshot()
+            for nb in running['nbrs']:
+                a = nb['name']
+                due[a] = apply_api(due[a], nb, step.get('api', []))
+                for op in step.get('api', []):
+                    if op[0] == a and ribrig.NLRI_FAM[op[2]] in nb['fams']:
+                        (owned[a].add if op[1] == 'announce' else owned[a].discard)(op[2])
+            # ---- the reload ----------------------------------------------------------------------
+            text, code, told = fault_text(step)
+            rig.write_file(text)
+            with Patch(step.get('fault')):
+                verdict = rig.reload()
+            if midloop:
+                rig.release(up_now[0])
+            res['verdict'] = verdict
+            res['verdicts'].append(verdict)
+            after = rig.snapshot()
+            if model:
+                mv = model.ask(R.model_load(told, code))
+                if not res['disagreement'] and (mv == 'ok') != verdict:
+                    res['disagreement'] = f'{where}: verdict: impl {verdict} model {mv}'
+            check(f'after {where}')
+            if midloop and model:
+                # the rest of the interrupted iteration runs before the loop top sees the new definition
+                a = up_now[0]
+                p = model.peers().get(a)
+                if p and p[2]:
+                    evs = parse_model_events(model.ask(f'reload sendupd {a}'))
+                    if model.sessions.get(a):
+                        model.sessions[a][-1].extend(evs)
+            if not sc.get('no_sessions'):
+                follow_up(rig, model)
+            check(f'after the follow-up of {where}')
+            # ---- oracle --------------------------------------------------------------------------
+            fclass = fault_class(step)
+            tag = 'after-a-failed-reload' if failed_before else 'first-attempt'
+            if verdict and not is_fault(step):
+                cur = by_name(running)
+                if not adj_off and not sc.get('no_sessions'):
+                    for nb in step['new']['nbrs']:
+                        a = nb['name']
+                        allowed = allowed_after(cur.get(a), nb, due.get(a, {}), owned.get(a, set()))
                         t = rig.table(a)
                         bad = {n: t.get(n) for n in ribrig.NLRIS if t.get(n) not in allowed[n]}
                         if bad:
-                            res['failures'].append((['failed-reload', fclass, 'next-reload-wrong-table'], f'neighbor {a}: after the failed reload the corrected file loads, but the peer then holds {bad}'))
-                            break
+                            acc = {n: sorted(map(str, allowed[n])) for n in bad}
+                            kind = 'neighbor-added' if a not in cur else tag
+                            res['failures'].append((['successful-reload', 'wrong-table', kind], f'{where}, neighbor {a}: after the reload and a drain the peer holds {bad} where {acc} is acceptable'))
+                for a in set(cur) - set(by_name(step['new'])):
+                    if rig.peer(a) is not None:
+                        res['failures'].append((['successful-reload', 'removed-neighbor-kept'], f'{where}: neighbor {a} was removed from the configuration and still has a peer'))
+                # the new state of affairs
+                running = step['new']
+                newdue, newowned = {}, {}
+                for nb in running['nbrs']:
+                    a = nb['name']
+                    t = rig.table(a) if not sc.get('no_sessions') else dict(live_routes(nb))
+                    newt = live_routes(nb)
+                    newdue[a] = dict(t)
+                    newowned[a] = {n for n in owned.get(a, set()) if a in cur and t.get(n) is not None and (n not in newt or t[n] != newt[n])}
+                due, owned = newdue, newowned
+            elif verdict and is_fault(step):
+                res['failures'].append((['broken-file-accepted', fclass], f'{where}: the reload of a broken file ({step["fault"]}) reported success'))
+                break
+            elif not verdict and not is_fault(step):
+                res['failures'].append((['valid-file-refused', tag], f'{where}: the reload of a valid file failed: {str(rig.cfg.error).strip()[:200]}'))
+                break
+            else:
+                failed_before = True
+                if after['neighbors'] != before['neighbors']:
+                    eff = 'neighbors-wiped' if not after['neighbors'] else 'neighbors-replaced'
+                    res['failures'].append((['failed-reload', fclass, eff], f'{where}: configuration.neighbors after the failed reload: {after["nbrs"]} (before: {before["nbrs"]}; same objects: {after["neighbors"] == before["neighbors"]})'))
+                if after['procs'] != before['procs']:
+                    res['failures'].append((['failed-reload', fclass, 'processes-changed'], f'{where}: configuration.processes after the failed reload: {after["procs"]} (before: {before["procs"]})'))
+                leaked = after['ribs'] != before['ribs']
+                what = f'RIBs after the failed reload {after["ribs"]} (before: {before["ribs"]})' if leaked else ''
+                if not adj_off and not sc.get('no_sessions'):
+                    for a, want_t in due.items():
+                        if rig.peer(a) is None:
+                            continue
+                        t = rig.table(a)
+                        if t != want_t:
+                            leaked = True
+                            what += f'; neighbor {a}: after the failed reload the peer holds {t}, it was due {want_t}'
+                if leaked:
+                    res['failures'].append((['failed-reload', fclass, 'routes-leaked'], f'{where}: ' + what.lstrip('; ')))
+                # the API still works
+                nb0 = running['nbrs'][0]
+                a0 = nb0['name']
+                probe = 5 if 1 in nb0['fams'] else 8
+                ans = rig.api_route(a0, 'announce', probe, 3, 2)
+                rig.settle()
+                peer0 = rig.peer(a0)
+                cached = [] if peer0 is None else [rig.rid(r) for r in peer0.neighbor.rib.outgoing.cached_routes()]
+                probe_ok = ans == ['done'] and (probe, ribrig.NLRI_FAM[probe], 3, 2) in cached
+                if not probe_ok and not adj_off:
+                    res['failures'].append((['failed-reload', fclass, 'api-broken'], f'{where}: after the failed reload `announce route` answered {ans} and the route is {"not " if (probe, ribrig.NLRI_FAM[probe], 3, 2) not in cached else ""}in the Adj-RIB-Out of neighbor {a0}'))
+                if probe_ok:
+                    due[a0][probe] = (3, 2)
+                    owned[a0].add(probe)
+                if model:
+                    model.ask(f'reload api {a0} add {probe}:{ribrig.NLRI_FAM[probe]}:3:2:{ribrig.grp_of(probe, 3, 2)} 0')
+                    p = model.peers().get(a0)
+                    if p and p[2]:
+                        model.drain(a0)
+                    check(f'after the api probe of {where}')
+            if res['failures']:
+                break  # what follows a violation is not judged
         # ---- wire events, model vs code ------------------------------------------------------------
+        settled_only = all(st.get('mode', 'settled') == 'settled' for st in sc['steps'])
         if model and not res['disagreement']:
             for a in NAMES:
                 key = rig.real_name(a)
@@ -571,24 +615,22 @@ def run_scenario(sc: dict, drv: common.Driver | None) -> dict:
                 mod = list(model.sessions.get(a, []))
                 if len(real_s) == len(mod):
                     # M-Rib does not model that a family the SESSION did not negotiate is not transmitted
-                    # (reachable here only when a failed reload re-attached the RIB with other families)
                     mod = [[e for e in evs if e[2] in s.fams] for evs, s in zip(mod, real_s)]
-                # a session cut by a teardown: which of the events still queued made it out before the
-                # NOTIFICATION is not modelled (the model drops them at `lost`; the peer's table is reset
-                # anyway).  Earlier sessions: what the model sent must be a prefix of what was sent, per
-                # prefix (settled mode) — or nothing is compared (burst / inflight / midloop); the session
-                # that is up at the end is compared exactly.
+                # a session cut by a teardown or a loss: which of the events still queued made it out is not
+                # modelled (the model drops them at `lost`; the peer's table is reset anyway).  Earlier
+                # sessions: what the model sent must be a prefix of what was sent, per prefix (all steps
+                # settled) — or nothing is compared; the session that is up at the end is compared exactly.
                 p_end = rig.peer(a)
                 alive = p_end is not None and p_end.established()
                 bad_events = False
                 if len(real) != len(mod):
                     bad_events = True
                 else:
-                    for i, (x, y) in enumerate(zip(real, mod)):
+                    for j, (x, y) in enumerate(zip(real, mod)):
                         px, py = per_nlri(x), per_nlri(y)
-                        if i == len(real) - 1 and alive:
+                        if j == len(real) - 1 and alive:
                             bad_events |= px != py
-                        elif mode == 'settled':
+                        elif settled_only:
                             bad_events |= any(px.get(n, [])[: len(q)] != q for n, q in py.items())
                 if bad_events:
                     res['disagreement'] = f'wire events of neighbor {a}: impl {real} model {mod}'
@@ -662,78 +704,130 @@ def mutate_nbr(rng: Any, nb: dict) -> dict:
     return new
 
 
-def gen_scenario(rng: Any, want_fault: str | None = None) -> dict:
-    count = rng.choice([1, 2, 2, 3])
-    names = rng.sample(NAMES[:3], count)
-    old = {'procs': [1], 'nbrs': [gen_nbr(rng, a) for a in names]}
-    new = {'procs': [1] if rng.random() < 0.85 else [1, 2], 'nbrs': []}
-    for nb in old['nbrs']:
-        if rng.random() < 0.08 and len(old['nbrs']) > 1:
-            continue  # neighbor removed
-        new['nbrs'].append(mutate_nbr(rng, nb) if rng.random() < 0.8 else copy.deepcopy(nb))
-    if not new['nbrs']:
-        new['nbrs'].append(copy.deepcopy(old['nbrs'][0]))
-    if rng.random() < 0.15:
-        free = [a for a in NAMES if a not in names]
-        new['nbrs'].insert(rng.randrange(0, len(new['nbrs']) + 1), gen_nbr(rng, free[0]))
-    up = [a for a in names if rng.random() < 0.6]
-    api = []
-    for _ in range(rng.choice([0, 0, 1, 2, 3])):
-        a = rng.choice(names)
-        nb = by_name(old)[a]
-        pool = [n for n in ribrig.NLRIS if ribrig.NLRI_FAM[n] in nb['fams'] and n not in (5, 8)]
-        n = rng.choice(pool)
-        api.append([a, 'announce' if rng.random() < 0.75 else 'withdraw', n, rng.choice([1, 2, 3]), rng.choice([1, 2])])
-    sc: dict = {'old': old, 'new': new, 'up': up, 'api': api, 'mode': rng.choice(['settled', 'settled', 'burst', 'inflight'])}
-    if len(up) == 1 and rng.random() < 0.5:
-        sc['mode'] = 'midloop'  # the reload interrupts the one running peer inside read_message
-    if rng.random() < 0.05:
-        # adj-rib-out switched off somewhere: only the RIB states are compared (M-Rib does not model a
-        # session start without adj-rib-out), so no session is run
-        sc['up'] = []
-        sc['no_sessions'] = True
-        sc['mode'] = 'burst'
-        rng.choice(old['nbrs'] + new['nbrs'])['adj'] = False
-    kind = want_fault if want_fault is not None else rng.choice(['ok', 'ok', 'ok', 'syntax', 'syntax', 'other'])
+def gen_fault(rng: Any, new: dict, kind: str) -> dict | None:
     nn = len(new['nbrs'])
     total_routes = sum(len(nb['routes']) for nb in new['nbrs'])
     if kind == 'syntax':
         lines = R.config_lines(new)
-        sc['fault'] = {'kind': 'syntax', 'line': rng.randrange(0, len(lines) + 1), 'text': rng.choice(['bogus;', 'bogus;', '}', 'neighbor {', 'hold-time abc;'])}
-        if sc['fault']['text'] == '}' or sc['fault']['text'] == 'neighbor {':
-            sc['fault']['text'] = 'bogus;'
-    elif kind == 'other':
-        x = rng.random()
-        if x < 0.14:
-            sc['fault'] = {'kind': 'missing'}
-        elif x < 0.20:
-            sc['fault'] = {'kind': 'empty'}
-        elif x < 0.40:
-            sc['fault'] = {'kind': 'exception', 'nbr': rng.randrange(0, nn)}
-        elif x < 0.55 and total_routes:
-            sc['fault'] = {'kind': 'exception', 'route': rng.randrange(0, total_routes)}
-        elif x < 0.70:
-            sc['fault'] = {'kind': 'validation', 'nbr': rng.randrange(0, nn)}
-        elif x < 0.80:
-            sc['fault'] = {'kind': 'no-peer-as', 'nbr': rng.randrange(0, nn)}
-        elif x < 0.88:
-            sc['fault'] = {'kind': 'bad-value', 'nbr': rng.randrange(0, nn)}
-        elif x < 0.94:
-            sc['fault'] = {'kind': 'duplicate', 'nbr': rng.randrange(0, nn)}
+        ends = R.nbr_end_lines(new)
+        if nn > 1 and rng.random() < 0.5:
+            # inside a later section, so that earlier sections (with their new routes) were completed
+            at = rng.randrange(ends[0] + 1, len(lines) + 1)
         else:
-            sc['fault'] = {'kind': 'unbalanced', 'nbr': rng.randrange(0, nn)}
-    if sc.get('fault') and rng.random() < 0.5:
-        sc['again'] = True
+            at = rng.randrange(0, len(lines) + 1)
+        return {'kind': 'syntax', 'line': at, 'text': rng.choice(['bogus;', 'bogus;', 'hold-time abc;'])}
+    x = rng.random()
+    if x < 0.14:
+        return {'kind': 'missing'}
+    if x < 0.20:
+        return {'kind': 'empty'}
+    if x < 0.40:
+        return {'kind': 'exception', 'nbr': rng.randrange(0, nn)}
+    if x < 0.55 and total_routes:
+        return {'kind': 'exception', 'route': rng.randrange(0, total_routes)}
+    if x < 0.65:
+        return {'kind': 'validation', 'nbr': rng.randrange(0, nn)}
+    if x < 0.77:
+        return {'kind': 'no-peer-as', 'nbr': rng.randrange(0, nn)}
+    if x < 0.86:
+        return {'kind': 'bad-value', 'nbr': rng.randrange(0, nn)}
+    if x < 0.94:
+        return {'kind': 'duplicate', 'nbr': rng.randrange(0, nn)}
+    return {'kind': 'unbalanced', 'nbr': rng.randrange(0, nn)}
+
+
+def gen_new(rng: Any, running: dict, gone: dict[int, dict]) -> dict:
+    """The next file: sections changed, a neighbor removed, a new one added, a removed one added again
+    under its old name with other routes."""
+    new = {'procs': [1] if rng.random() < 0.85 else [1, 2], 'nbrs': []}
+    for nb in running['nbrs']:
+        if rng.random() < 0.12 and len(running['nbrs']) > 1:
+            continue  # neighbor removed
+        new['nbrs'].append(mutate_nbr(rng, nb) if rng.random() < 0.8 else copy.deepcopy(nb))
+    if not new['nbrs']:
+        new['nbrs'].append(copy.deepcopy(running['nbrs'][0]))
+    have = {nb['name'] for nb in new['nbrs']}
+    back = [a for a in gone if a not in have]
+    if back and rng.random() < 0.6:
+        a = rng.choice(back)
+        again = gen_nbr(rng, a)
+        again['key'] = gone[a]['key']
+        new['nbrs'].insert(rng.randrange(0, len(new['nbrs']) + 1), again)
+    elif rng.random() < 0.15:
+        free = [a for a in NAMES if a not in have and a not in gone]
+        if free:
+            new['nbrs'].insert(rng.randrange(0, len(new['nbrs']) + 1), gen_nbr(rng, free[0]))
+    return new
+
+
+def gen_api(rng: Any, running: dict) -> list:
+    api = []
+    names = [nb['name'] for nb in running['nbrs']]
+    for _ in range(rng.choice([0, 0, 1, 2, 3])):
+        a = rng.choice(names)
+        nb = by_name(running)[a]
+        pool = [n for n in ribrig.NLRIS if ribrig.NLRI_FAM[n] in nb['fams'] and n not in (5, 8)]
+        api.append([a, 'announce' if rng.random() < 0.75 else 'withdraw', rng.choice(pool), rng.choice([1, 2, 3]), rng.choice([1, 2])])
+    return api
+
+
+def gen_scenario(rng: Any, want_fault: str | None = None, steps: int | None = None) -> dict:
+    """A history: an initial file, sessions, then 1–4 reloads (successful and failing ones mixed), with API
+    commands, session losses and transmission modes in between."""
+    count = rng.choice([1, 2, 2, 3])
+    names = rng.sample(NAMES[:3], count)
+    old = {'procs': [1], 'nbrs': [gen_nbr(rng, a) for a in names]}
+    sc: dict = {'old': old, 'up': [a for a in names if rng.random() < 0.6], 'steps': []}
+    nsteps = steps if steps is not None else rng.choice([1, 1, 2, 2, 3, 4])
+    running = old
+    gone: dict[int, dict] = {}
+    refused: dict | None = None
+    if nsteps == 1 and rng.random() < 0.05:
+        # adj-rib-out switched off somewhere: only the RIB states are compared (M-Rib does not model a
+        # session start without adj-rib-out), so no session is run
+        new = gen_new(rng, running, gone)
+        sc['up'] = []
+        sc['no_sessions'] = True
+        rng.choice(old['nbrs'] + new['nbrs'])['adj'] = False
+        step = {'flap': [], 'api': gen_api(rng, running), 'mode': 'burst', 'new': new}
+        if rng.random() < 0.5:
+            step['fault'] = gen_fault(rng, new, 'syntax')
+        sc['steps'].append(step)
+        return sc
+    for i in range(nsteps):
+        x = rng.random()
+        if refused is not None and x < 0.5:
+            new = copy.deepcopy(running) if rng.random() < 0.5 else copy.deepcopy(refused)  # the original, or the corrected file
+        else:
+            new = gen_new(rng, running, gone)
+        live = [nb['name'] for nb in running['nbrs']]
+        step: dict = {'flap': [a for a in live if rng.random() < 0.15], 'api': gen_api(rng, running), 'mode': rng.choice(['settled', 'settled', 'burst', 'inflight', 'midloop']), 'new': new}
+        kind = want_fault if (want_fault is not None and i == 0) else rng.choice(['ok', 'ok', 'ok', 'syntax', 'syntax', 'other'])
+        if kind != 'ok':
+            step['fault'] = gen_fault(rng, new, kind)
+        sc['steps'].append(step)
+        if is_fault(step):
+            refused = new
+        else:
+            for nb in running['nbrs']:
+                if nb['name'] not in {x['name'] for x in new['nbrs']}:
+                    gone[nb['name']] = nb
+            for nb in new['nbrs']:
+                gone.pop(nb['name'], None)
+            running = new
+            refused = None
     return sc
 
 
 def every_line(sc: dict) -> list[dict]:
-    """The broken variants of one scenario with the fault at EVERY line of the new file."""
+    """The broken variants of a one-reload scenario with the fault at EVERY line of the new file, each followed
+    by a reload of the original file."""
     out = []
-    lines = R.config_lines(sc['new'])
+    step = sc['steps'][0]
+    lines = R.config_lines(step['new'])
     for at in range(len(lines) + 1):
         v = copy.deepcopy(sc)
-        v['fault'] = {'kind': 'syntax', 'line': at, 'text': 'bogus;'}
+        v['steps'] = [dict(copy.deepcopy(step), fault={'kind': 'syntax', 'line': at, 'text': 'bogus;'}), {'flap': [], 'api': [], 'mode': 'settled', 'new': copy.deepcopy(sc['old'])}]
         out.append(v)
     return out
 
@@ -755,21 +849,104 @@ def size(sc: dict) -> int:
     return len(json.dumps(sc))
 
 
+def fails_with(sc: dict, c: list) -> bool:
+    res = run_scenario(sc, None)
+    return not res['error'] and any(x == c for x, _ in res['failures'])
+
+
+def shrink(sc: dict, c: list, budget: int = 80) -> dict:
+    """Greedy reduction of a failing history (same canonical failure): drop reloads, API commands, session
+    losses, sessions, neighbors that take no part, routes."""
+    cur = normalize(copy.deepcopy(sc))
+    runs = 0
+
+    def attempt(cand: dict) -> bool:
+        nonlocal runs, cur
+        if runs >= budget:
+            return False
+        runs += 1
+        try:
+            if cand['steps'] and fails_with(cand, c):
+                cur = cand
+                return True
+        except Exception:
+            pass
+        return False
+
+    changed = True
+    while changed and runs < budget:
+        changed = False
+        for i in range(len(cur['steps'])):
+            cand = copy.deepcopy(cur)
+            del cand['steps'][i]
+            if attempt(cand):
+                changed = True
+                break
+        if changed:
+            continue
+        for i, st in enumerate(cur['steps']):
+            for fld in ('api', 'flap'):
+                for j in range(len(st.get(fld, []))):
+                    cand = copy.deepcopy(cur)
+                    del cand['steps'][i][fld][j]
+                    if attempt(cand):
+                        changed = True
+                        break
+                if changed:
+                    break
+            if changed:
+                break
+            if st.get('mode', 'settled') != 'settled':
+                cand = copy.deepcopy(cur)
+                cand['steps'][i]['mode'] = 'settled'
+                if attempt(cand):
+                    changed = True
+                    break
+        if changed:
+            continue
+        for a in list(cur['up']):
+            cand = copy.deepcopy(cur)
+            cand['up'].remove(a)
+            if attempt(cand):
+                changed = True
+                break
+        if changed:
+            continue
+        # routes, one at a time, in the initial file and in every file of the history
+        files = [cur['old']] + [st['new'] for st in cur['steps']]
+        for fi in range(len(files)):
+            for ni in range(len(files[fi]['nbrs'])):
+                for ri in range(len(files[fi]['nbrs'][ni]['routes'])):
+                    cand = copy.deepcopy(cur)
+                    target = cand['old'] if fi == 0 else cand['steps'][fi - 1]['new']
+                    if 'fault' in (cand['steps'][fi - 1] if fi else {}) and cand['steps'][fi - 1]['fault']['kind'] in ('syntax', 'exception'):
+                        continue  # line / route positions would move
+                    del target['nbrs'][ni]['routes'][ri]
+                    if attempt(cand):
+                        changed = True
+                        break
+                if changed:
+                    break
+            if changed:
+                break
+    return cur
+
+
 def run(ctx: Ctx) -> None:
     rng = ctx.rng
-    ncases = 260 if ctx.tier == 'quick' else 6000
+    ncases = 200 if ctx.tier == 'quick' else 4000
     ctx.rule = (
-        'scenarios = (old configuration file, new configuration file or a broken variant, which sessions are established, API activity, transmission mode) over 4 neighbor names x 2 families x 8 prefixes x 3 attribute sets x 2 next hops x 3 hold-times; '
-        'a case is non-trivial when the reload succeeded and changed at least one route, neighbor or session parameter, or when it failed; distinct = distinct scenario'
+        'scenarios = histories: an initial configuration file, which sessions are established, then 1–4 reloads — each a new file or a broken variant (fault at any line, parser exception, missing / empty file), preceded by API commands, session losses and a transmission mode — over 4 neighbor names x 2 families x 8 prefixes x 3 attribute sets x 2 next hops x 3 hold-times; the oracle is evaluated after every reload; '
+        'a case is non-trivial when some reload succeeded and changed at least one route, neighbor or session parameter, or when some reload failed; distinct = distinct history'
     )
     cases: list[tuple[dict, str]] = load_corpus()
-    # the fault at every line of one generated file (a different file per seed), plus random scenarios
+    # the fault at every line of one generated file (a different file per seed), plus random histories
     for _ in range(1 if ctx.tier == 'quick' else 6):
-        base = gen_scenario(rng, 'ok')
-        while len(base['new']['nbrs']) < 2 or not base['up']:
-            base = gen_scenario(rng, 'ok')
-        base['mode'] = 'settled'
-        base.pop('fault', None)
+        base = gen_scenario(rng, 'ok', steps=1)
+        while len(base['steps'][0]['new']['nbrs']) < 2 or not base['up'] or base.get('no_sessions'):
+            base = gen_scenario(rng, 'ok', steps=1)
+        base['steps'][0]['mode'] = 'settled'
+        base['steps'][0].pop('fault', None)
         cases += [(v, 'every-line') for v in every_line(base)]
     for i in range(ncases):
         cases.append((gen_scenario(rng), 'random'))
@@ -777,26 +954,41 @@ def run(ctx: Ctx) -> None:
     best: dict[str, tuple[tuple, dict, str]] = {}  # canonical failure -> (rank, scenario, what); corpus cases first
     try:
         for sc, origin in cases:
-            if ctx.time_left() < 0:
+            if ctx.time_left() < 12:
                 ctx.notes.append(f'budget reached after {ctx.evaluations} cases')
                 break
+            sc = normalize(sc)
             res = run_scenario(sc, drv)
             ctx.evaluations += 1
             ctx.count('origin:' + origin)
-            ctx.count('fault:' + (sc['fault']['kind'] if sc.get('fault') else 'none'))
-            ctx.count('mode:' + sc.get('mode', 'settled'))
+            ctx.count('reloads:%d' % len(sc['steps']))
+            running = sc['old']
+            trivial = True
+            for st, v in zip(sc['steps'], res['verdicts']):
+                ctx.count('fault:' + (st['fault']['kind'] if st.get('fault') else 'none'))
+                ctx.count('mode:' + st.get('mode', 'settled'))
+                ctx.count('api-ops:%d' % len(st.get('api', [])))
+                ctx.count('flaps:%d' % len(st.get('flap', [])))
+                ctx.count('verdict:' + str(v))
+                kinds = delta_kinds({'old': running, 'new': st['new']})
+                if v:
+                    for k in kinds:
+                        ctx.count('delta:' + k)
+                    if set(by_name(st['new'])) & (set(n for s0 in [sc['old']] + [x['new'] for x in sc['steps']] for n in by_name(s0)) - set(by_name(running))) and running is not sc['old']:
+                        ctx.count('delta:neighbor-name-back')
+                    running = st['new']
+                if (v and kinds) or not v:
+                    trivial = False
+            hist = ''.join('S' if v else 'F' for v in res['verdicts'])
+            ctx.count('history:' + (hist or '-'))
             ctx.count('sessions-up:%d/%d' % (len(sc['up']), len(sc['old']['nbrs'])))
-            ctx.count('api-ops:%d' % len(sc['api']))
-            for k in delta_kinds(sc):
-                ctx.count('delta:' + k)
-            ctx.count('verdict:' + str(res['verdict']))
             if res['error']:
                 ctx.count('rig-error')
                 ctx.disagreements.append(Disagreement('reload', {'scenario': sc}, None, res['error'] + ' ' + res.get('tb', '')[-600:]))
                 continue
-            if (res['verdict'] and delta_kinds(sc)) or not res['verdict']:
+            if not trivial:
                 ctx.nontrivial(canon(sc))
-            ctx.sample({'scenario': sc, 'verdict': res['verdict'], 'sent': res.get('sent'), 'tables': {a: {n: list(v) for n, v in t.items()} for a, t in res.get('tables', {}).items()}}, cap=3)
+            ctx.sample({'scenario': sc, 'verdicts': res['verdicts'], 'sent': res.get('sent'), 'tables': {a: {n: list(v) for n, v in t.items()} for a, t in res.get('tables', {}).items()}}, cap=3)
             if res['disagreement']:
                 ctx.count('disagreement')
                 if len(ctx.disagreements) < 20:
@@ -810,17 +1002,24 @@ def run(ctx: Ctx) -> None:
     finally:
         if drv is not None:
             drv.close()
-    for key, (_, sc, what) in sorted(best.items()):
-        ctx.failures.append(Failure('reload', json.loads(key), {'scenario': sc}, what))
+    for key, (rank, sc, what) in sorted(best.items()):
+        c = json.loads(key)
+        if rank[0] and ctx.time_left() > 3:
+            small = shrink(sc, c, budget=60 if ctx.tier == 'quick' else 200)
+            r2 = run_scenario(small, None)
+            w2 = [w for x, w in r2['failures'] if x == c]
+            if w2:
+                sc, what = small, w2[0]
+        ctx.failures.append(Failure('reload', c, {'scenario': sc}, what))
     ctx.notes.append('observed, outside the wording of C17 (not raised): validate() errors are swallowed by _reload (returns True either way); a reload that adds a route parked by `watchdog … withdraw` announces it (replace_reload force-adds it)')
 
 
 def replay(path: str) -> int:
     data = json.loads(open(path).read())
-    sc = data['replay']['scenario'] if 'replay' in data else data['scenario']
+    sc = normalize(data['replay']['scenario'] if 'replay' in data else data['scenario'])
     res = run_scenario(sc, None)
     print('scenario :', json.dumps(sc))
-    print('verdict  :', res['verdict'])
+    print('verdicts :', res['verdicts'])
     print('sent     :', res.get('sent'))
     print('tables   :', res.get('tables'))
     print('error    :', res['error'])
